@@ -5,7 +5,11 @@ use serde_json::{json, Value};
 use std::collections::{BTreeMap, HashSet};
 use std::time::Instant;
 
-pub const VERIF: &str = "/verif";
+/// root of the verification tree: $VERIF_ROOT (set by ./check to its own directory, so that a snapshot run writes into
+/// the snapshot) or /verif
+pub fn verif() -> String {
+    std::env::var("VERIF_ROOT").ok().filter(|s| !s.is_empty()).unwrap_or_else(|| "/verif".to_string())
+}
 
 #[derive(Clone, Debug)]
 pub struct Issue {
@@ -119,7 +123,7 @@ pub struct Known {
 }
 impl Known {
     pub fn load() -> Known {
-        let path = format!("{}/known_findings.json", VERIF);
+        let path = format!("{}/known_findings.json", verif());
         let mut findings = vec![];
         if let Ok(s) = std::fs::read_to_string(&path) {
             let v: Value = serde_json::from_str(&s).unwrap_or_else(|e| {
@@ -216,7 +220,7 @@ pub fn finish(rep: Report, spaces: &[Box<dyn Space>], results: Vec<SpaceResult>,
     // write one replay file per signature
     let mut nviol = 0u64;
     let mut confirmed = 0u64;
-    let dir = format!("{}/replays/{}", VERIF, rep.prop);
+    let dir = format!("{}/replays/{}", verif(), rep.prop);
     let _ = std::fs::create_dir_all(&dir);
     violations.sort_by(|a, b| (a.0, a.3).cmp(&(b.0, b.3)));
     let mut by_sig: Vec<(usize, String, u64, u64, String)> = vec![];
@@ -274,8 +278,8 @@ pub fn finish(rep: Report, spaces: &[Box<dyn Space>], results: Vec<SpaceResult>,
         "property_id": rep.prop, "tier": rep.tier, "seed": seed(), "level": rep.level,
         "coverage": coverage, "assumptions": rep.assumptions, "wall_s": (wall*100.0).round()/100.0, "violations": nviol,
     });
-    let _ = std::fs::create_dir_all(format!("{}/evidence", VERIF));
-    std::fs::write(format!("{}/evidence/{}.json", VERIF, rep.prop), serde_json::to_string_pretty(&ev).unwrap()).expect("write evidence");
+    let _ = std::fs::create_dir_all(format!("{}/evidence", verif()));
+    std::fs::write(format!("{}/evidence/{}.json", verif(), rep.prop), serde_json::to_string_pretty(&ev).unwrap()).expect("write evidence");
     eprintln!("[{}] tier={} evaluations={} transitions={} distinct_outcomes={} known={} violations={} wall={:.1}s", rep.prop, rep.tier, evaluations, transitions, keys.len(), known_seen.len(), nviol, wall);
     // a confirmed, printed violation is a verdict even if some other observation could not be confirmed
     if confirmed > 0 {
